@@ -22,7 +22,8 @@
    handlers), so that the declarative properties at the end are a separate statement. *)
 EXTENDS Integers, Sequences, FiniteSets, TLC
 
-CONSTANT NoRefresh
+CONSTANTS NoRefresh,
+          AsIsNoContain     \* TRUE: the unrepaired driver (D9): an unknown property / element raises out of message handling
 None == "none"
 On == "On"
 Off == "Off"
@@ -142,8 +143,11 @@ ApplyChildren(D, S, v, ch) ==
            \* numbers and BLOBs are converted BEFORE set_value (a failing conversion raises no Write event); switch / light /
            \* text values go through set_value as they are: the Write handlers see the raw text, the setter then rejects it
            early == D.vecs[v].kind \in {"number", "blob"}
-       IN IF e = 0 \/ (early /\ ~c[3]) THEN ApplyChildren(D, S, v, Tail(ch))
-          ELSE ApplyChildren(D, [SetValue(D, S, v, e, c[2]) EXCEPT !.raised = FALSE], v, Tail(ch))
+       IN IF AsIsNoContain /\ (e = 0 \/ ~c[3]) THEN [S EXCEPT !.raised = TRUE]
+          ELSE IF e = 0 \/ (early /\ ~c[3]) THEN ApplyChildren(D, S, v, Tail(ch))
+          ELSE LET S1 == SetValue(D, S, v, e, c[2]) IN
+               IF AsIsNoContain /\ S1.raised THEN S1
+               ELSE ApplyChildren(D, [S1 EXCEPT !.raised = FALSE], v, Tail(ch))
 
 VecOf(D, dev, name) == IF \E v \in DOMAIN D.vecs : D.vecs[v].dev = dev /\ D.vecs[v].name = name
                        THEN CHOOSE v \in DOMAIN D.vecs : D.vecs[v].dev = dev /\ D.vecs[v].name = name ELSE 0
@@ -157,7 +161,8 @@ RECURSIVE NewVectorOn(_, _, _, _, _)
 NewVectorOn(D, S, devs, vecname, ch) ==
   IF devs = <<>> THEN S
   ELSE LET v == VecOf(D, Head(devs), vecname) IN
-       NewVectorOn(D, IF v = 0 THEN S ELSE ApplyChildren(D, S, v, ch), Tail(devs), vecname, ch)
+       IF S.raised THEN S
+       ELSE NewVectorOn(D, IF v = 0 THEN [S EXCEPT !.raised = AsIsNoContain] ELSE ApplyChildren(D, S, v, ch), Tail(devs), vecname, ch)
 DevSeq(D, target) == SelectSeq(D.devorder, LAMBDA d : Accepts(d, target))
 OpNewVector(D, S, target, vecname, ch) == NewVectorOn(D, Fresh(S), DevSeq(D, target), vecname, ch)
 
